@@ -8,6 +8,7 @@
 * if nothing is ready and no timer is pending the loop records `stalled` and stops.
 """
 import asyncio
+import os
 import heapq
 import time as _time
 from contextlib import contextmanager
@@ -107,6 +108,10 @@ def patched_clock(loop: VLoop):
             master.time_ns = saved[4]
 
 
+class WallClockExceeded(Exception):
+    pass
+
+
 def run_virtual(main_factory, *, start_ns=1_000_000_000, max_steps=200_000, at_step=None, step_cost_ns=0):
     """Run `await main_factory(loop)` on a fresh VLoop. Returns (result, loop).
     result is ('ok', value) | ('stalled', None) | ('budget', None) | ('error', exc)."""
@@ -117,11 +122,29 @@ def run_virtual(main_factory, *, start_ns=1_000_000_000, max_steps=200_000, at_s
         for k, fns in at_step.items():
             loop.at_step.setdefault(k, []).extend(fns)
     asyncio.set_event_loop(loop)
+    # wall-clock watchdog: code under test that spins WITHOUT ever yielding to the event loop (e.g. `while not x: await
+    # event.wait()` on an event that stays set) cannot be stopped by the virtual loop's step budget; an alarm raises inside
+    # it instead, and the run is reported as not completed
+    import signal
+    import threading
+    wall = float(os.environ.get("VERIF_WALL_LIMIT", "120"))
+    armed = False
+    if threading.current_thread() is threading.main_thread() and wall > 0:
+        try:
+            def _alarm(signum, frame):
+                raise WallClockExceeded(f"no progress of the event loop within {wall:.0f} s of wall-clock time (the code under test spins without yielding)")
+            old_handler = signal.signal(signal.SIGALRM, _alarm)
+            signal.setitimer(signal.ITIMER_REAL, wall)
+            armed = True
+        except (ValueError, OSError):
+            armed = False
     try:
         with patched_clock(loop):
             try:
                 val = loop.run_until_complete(main_factory(loop))
                 res = ("ok", val)
+            except WallClockExceeded as e:
+                res = ("error", e)
             except RuntimeError as e:
                 if loop.stalled:
                     res = ("stalled", None)
@@ -145,6 +168,9 @@ def run_virtual(main_factory, *, start_ns=1_000_000_000, max_steps=200_000, at_s
             except Exception:
                 pass
     finally:
+        if armed:
+            signal.setitimer(signal.ITIMER_REAL, 0)
+            signal.signal(signal.SIGALRM, old_handler)
         asyncio.set_event_loop(None)
         try:
             loop.close()
